@@ -17,7 +17,7 @@ def tensor_specs(case, problem):
         if name == out_name:
             specs.append(cdrv.TensorSpec(name, dims[name], modes, ordering, None, None, "output"))
         else:
-            ind, vals = taco.build(case.inputs[name], dims[name], modes, ordering)
+            ind, vals = taco.build(case.inputs[name], dims[name], modes, ordering, hollow=case.hollow_of(name))
             specs.append(cdrv.TensorSpec(name, dims[name], modes, ordering, ind, vals, "input"))
     return specs
 
